@@ -68,6 +68,7 @@ type Scenario struct {
 	DefTimeout  bool             `json:"def_timeout,omitempty"`   // Transfer.ReadTimeout is left at zero: the documented default of 2 s applies (read_timeout_ms is 2000)
 	QCase       bool             `json:"qcase,omitempty"`         // the zone is asked for in another letter case than the one the sender spells it in
 	LocalClose  int              `json:"local_close,omitempty"`   // the application closes the transfer's connection itself after taking this many envelopes
+	Reuse       bool             `json:"reuse,omitempty"`         // the application's Transfer value has carried a transfer before (a small unsigned AXFR over a connection of its own, taken to the end) and is handed the connection of the transfer under test afterwards
 	UDP         bool             `json:"udp,omitempty"`           // IXFR over UDP (RFC 1995, section 2): the application hands Transfer.In a datagram connection; the answer is one datagram - of more than 512 octets in most runs - from a real Server's handler
 	NoDeadlines bool             `json:"no_deadlines,omitempty"`  // the caller-supplied connection is of a kind that cannot time out (SetReadDeadline reports an error): a transfer over a healthy link is complete all the same
 	FinWithLast bool             `json:"fin_with_last,omitempty"` // a link without faults whose far end closes right behind the closing envelope: the receiver's last read may return the last octets together with io.EOF, as an io.Reader may (a TLS connection, a tunnel)
@@ -299,6 +300,9 @@ func Gen(seed uint64, tier string) any {
 	}
 	if len(sc.Ops) == 0 && sc.CutAt == 0 && !sc.BadFirst && sc.Rcode == 0 && sc.WrongID == 0 && !sc.Trailing && sc.OutFailAt == 0 && sc.Dial == "" && sc.Big == 0 && core.Chance(r, 8) {
 		sc.NoDeadlines = true
+	}
+	if sc.Alg == "" && !sc.EmptyKeys && sc.Dial == "" && core.Chance(r, 12) {
+		sc.Reuse = true
 	}
 	if sc.TimeoutMs != 2000 {
 		sc.DefTimeout = false
@@ -582,6 +586,7 @@ type run struct {
 	srv                 *dns.Server
 	l                   *simnet.Listener
 	serveRet            bool
+	inStart             time.Time // when Transfer.In was called for the transfer under test
 	outErr              string
 	firstFed            bool // the feeder has handed its first envelope to Transfer.Out
 	outDone             bool // Transfer.Out has returned (outErr says how)
@@ -626,6 +631,34 @@ func (c *clientTask) RunEvent(time.Time) {
 		defer common.InstallSockets(&common.Sockets{Dial: x.dial})()
 		x.res.Bump("cover.transfer_dials_itself")
 	}
+	if sc.Reuse && !dialling && sc.Alg == "" && !sc.EmptyKeys {
+		// an earlier transfer with the same Transfer value: three records in one envelope from a sender of its own,
+		// over a connection of its own, read to the end
+		w1, w2 := x.n.Pair(true)
+		k.Go("warm-sender", &warmSender{x, w2})
+		t.Conn = &dns.Conn{Conn: w1}
+		q0 := new(dns.Msg)
+		q0.SetAxfr("warm.example.")
+		q0.Id = 3999
+		n0, e0 := 0, ""
+		if env0, err := t.In(q0, "10.0.0.9:53"); err != nil {
+			e0 = err.Error()
+		} else {
+			for e := range env0 {
+				n0 += len(e.RR)
+				if e.Error != nil {
+					e0 = e.Error.Error()
+				}
+			}
+		}
+		k.Lock()
+		x.res.Stats["cover.transfer_value_used_before"]++
+		if e0 != "" || n0 != 3 {
+			x.res.Fail("T1", "earlier-transfer-failed", "the small transfer that came before the one under test (three records in one envelope, a healthy link) delivered %d records and the error %q", n0, e0)
+		}
+		k.Unlock()
+		t.Conn = &dns.Conn{Conn: x.cliConn}
+	}
 	asked := zone
 	if sc.QCase {
 		asked = "XFR.Example."
@@ -650,6 +683,9 @@ func (c *clientTask) RunEvent(time.Time) {
 		t.TsigSecret = map[string]string{}
 		x.res.Bump("fault.receiver_with_empty_secret_map")
 	}
+	k.Lock()
+	x.inStart = time.Now()
+	k.Unlock()
 	env, err := t.In(q, "10.0.0.1:53")
 	if dialling {
 		k.Lock()
@@ -780,6 +816,42 @@ func errClass(e string) string {
 		return "tsig"
 	}
 	return "other"
+}
+
+// warmSender answers one AXFR question with one envelope of three records and hangs up when its peer does.
+type warmSender struct {
+	x *run
+	c *simnet.StreamConn
+}
+
+//go:norace
+func (w *warmSender) RunEvent(time.Time) {
+	c := w.c
+	c.SetDeadline(time.Now().Add(time.Hour))
+	var hdr [2]byte
+	if !readFull(c, hdr[:]) {
+		return
+	}
+	qb := make([]byte, int(hdr[0])<<8|int(hdr[1]))
+	if !readFull(c, qb) {
+		return
+	}
+	q := new(dns.Msg)
+	if q.Unpack(qb) != nil {
+		return
+	}
+	m := new(dns.Msg)
+	m.SetReply(q)
+	s := &dns.SOA{Hdr: dns.RR_Header{Name: "warm.example.", Rrtype: dns.TypeSOA, Class: dns.ClassINET, Ttl: 60}, Ns: "ns.warm.example.", Mbox: "h.warm.example.", Serial: 1, Refresh: 1, Retry: 1, Expire: 1, Minttl: 1}
+	m.Answer = []dns.RR{s, &dns.A{Hdr: dns.RR_Header{Name: "a.warm.example.", Rrtype: dns.TypeA, Class: dns.ClassINET, Ttl: 60}, A: []byte{192, 0, 2, 9}}, s}
+	b, err := m.Pack()
+	if err != nil {
+		return
+	}
+	c.Write(oracle.Frame(b))
+	var one [1]byte
+	c.Read(one[:]) // until the receiver closes
+	c.Close()
 }
 
 // scripted sender: builds the envelopes itself and signs them with the
@@ -1551,6 +1623,9 @@ func abs(v int) int {
 //go:norace
 func (x *run) judge(start0 time.Time) {
 	res, sc := x.res, x.sc
+	if !x.inStart.IsZero() {
+		start0 = x.inStart // the receiver's clock starts when the transfer under test is asked for (an earlier transfer with the same Transfer value may have come first)
+	}
 	if x.refused {
 		res.Nontrivial = true
 		res.Class = fmt.Sprintf("%s/dial-refused/%s", sc.Kind, core.Mode)
